@@ -100,6 +100,8 @@ func (in *Interp) ret(st *State, results []ast.Expr, pos token.Pos) {
 			case ObjV:
 				if vv.Path == "error" {
 					r.IsErr = true
+				} else if isLocalObj(vv.Path) && !strings.Contains(vv.Path, ".") {
+					r.IsErr = true // an error value of the module's own type, allocated here (&rangeError{…})
 				} else if in.guardImpliesNonNil(vv.Path) {
 					r.IsErr = true
 				}
@@ -416,7 +418,8 @@ func (in *Interp) exec(st *State, s ast.Stmt) (*State, bool) {
 			if reads[i] != nil {
 				r := reads[i]
 				r.Src = in.destName(st, l)
-				if !in.isPlainRead(x.Rhs[i]) {
+				_, joined := unparen(x.Rhs[i]).(*ast.BinaryExpr)
+				if !in.isPlainRead(x.Rhs[i]) || (joined && r.Kind != "int") {
 					r.Kind = "packed"
 					r.Expr = x.Rhs[i]
 				}
@@ -537,6 +540,8 @@ func (in *Interp) isPlainRead(e ast.Expr) bool {
 	switch x := e.(type) {
 	case *ast.IndexExpr:
 		return true
+	case *ast.BinaryExpr:
+		return in.byteLanes(x) != nil
 	case *ast.CallExpr:
 		if tv, ok := in.info.Types[x.Fun]; ok && tv.IsType() && len(x.Args) == 1 {
 			return in.isPlainRead(x.Args[0])
